@@ -1,0 +1,21 @@
+//go:build verif
+
+package profile
+
+// Contracts for the hvc verifier (/verif). Comment-only.
+//
+// C14: "a profile that omits a setting ... never a crash". Every block of the profile is a pointer
+// field that the decoder leaves nil when the block is absent (no error is reported for that), so the
+// accessors must work on any decoded profile: nothing is assumed about the blocks.
+//@ func (p *Profile) ListOfUsernames() (r []string)
+//@   requires nonnil: p != nil
+//@   ensures count: p.Config.Operators != nil ==> len(r) == len(p.Config.Operators.Users)
+//@   ensures none:  p.Config.Operators == nil ==> len(r) == 0
+//@   loop "for _, user := range p.Config.Operators.Users"
+//@     invariant count: len(Usernames) == idx__ && (cap(Usernames) == 0 || fresh(arrayof(Usernames)))
+//@ func (p *Profile) ServerHost() (r string)
+//@   requires nonnil: p != nil
+//@   pure
+//@ func (p *Profile) ServerPort() (r int)
+//@   requires nonnil: p != nil
+//@   pure
